@@ -69,6 +69,16 @@ class PathEnum:
                     cur_variant = None
                     continue
                 a = self.facts.adts.get(adt) if adt else None
+                if a and adt == 'renoir::operator::StreamElement' and cur_variant in ('Item', 'Timestamped') and e[1] == 0 \
+                        and ty.startswith(adt + '<'):
+                    # payload of StreamElement<T>: instantiate the generic parameter from the type string
+                    inner = ty[len(adt) + 1:-1]
+                    ty = inner
+                    adt = inner.split('<', 1)[0]
+                    if adt not in self.facts.adts and adt not in STD_VARIANTS:
+                        adt = None
+                    cur_variant = None
+                    continue
                 if not a:
                     if ty.startswith('('):
                         from .absint import split_top
